@@ -46,6 +46,7 @@ class Ctx:
         self.declared_raises = None
         self.cvx = []  # cvxpy problems solved during execution (see cvxmodel)
         self.fresh_log = []  # z3 constants created during execution (loop witnesses etc.)
+        self.nlp = []  # scipy.optimize.minimize programs (see libcalls.sp_minimize)
         self._abs_cache = {}
 
     def __enter__(self):
@@ -854,7 +855,40 @@ class Exec:
                 out.append((s, self.getitem(vals[0], vals[1], s)))
             except PathDead:
                 pass
+            except self.lib.NeedConcreteMask as e:
+                # fork on every symbolic entry of the mask; on each path the entries are written back as the
+                # constants they equal there, then the selection has a concrete shape
+                s.tmp.append((vals[0], vals[1]))
+                for s2 in self.concretize_mask(s, e.mask):
+                    v0, v1 = s2.tmp.pop()
+                    try:
+                        out.append((s2, self.getitem(v0, v1, s2)))
+                    except PathDead:
+                        pass
         return out
+
+    def concretize_mask(self, st, mask):
+        st.tmp.append(mask)
+        paths = [st]
+        n = mask.size
+        for k in range(n):
+            new = []
+            for s in paths:
+                mk = s.tmp[-1]
+                flat = mk.a.reshape(-1)
+                v = flat[k]
+                if isinstance(v, bool):
+                    new.append(s)
+                    continue
+                for s2, b in self.branch(s, v):
+                    mk2 = s2.tmp[-1]
+                    pos = _np.unravel_index(k, mk2.a.shape)
+                    mk2.a[pos] = bool(b)
+                    new.append(s2)
+            paths = new
+        for s in paths:
+            s.tmp.pop()
+        return paths
 
     def ev_index(self, node, st):
         if isinstance(node, ast.Slice):
